@@ -3,7 +3,7 @@
    real threads (exhaustively for 2 writers, by simulation for 3).                        *)
 EXTENDS S3Init, CaseIO
 MCNext == /\ Next
-          /\ (TrackSched /\ Terminal') => Emit([mode |-> Mode, n |-> NWriters, cells |-> CellMap, sched |-> sched',
+          /\ (TrackSched /\ Terminal') => Emit([mode |-> Mode, n |-> NWriters, cells |-> CellMap, first |-> FirstUse, sched |-> sched',
                  final |-> [ncreated |-> Cardinality(created'), nparts |-> Cardinality(parts'), ncompleted |-> Cardinality(completed'), nfailed |-> Cardinality(failed')]])
 MCSpec == Init /\ [][MCNext]_vars
 MCFairSpec == MCSpec /\ \A p \in Procs : WF_vars(Step(p))
